@@ -48,7 +48,7 @@ func main() {
 	repo := flag.String("repo", "/repo", "")
 	verif := flag.String("verif", "/verif", "")
 	out := flag.String("out", "/verif/build/ovl", "")
-	timepkgs := flag.String("timepkgs", "replica,controller,replica/client,backend/remote,sync,rpc,controller/client,app,replica/rest,controller/rest,sync/agent", "")
+	timepkgs := flag.String("timepkgs", "replica,controller,replica/client,backend/remote,sync,controller/client,app,replica/rest,controller/rest,sync/agent", "")
 	flag.Parse()
 
 	replace := map[string]string{}
